@@ -240,6 +240,8 @@ struct ReadyRecord {
     last_entry: Option<(u64, u64)>,
     // (index, term) of the snapshot in Ready
     snapshot: Option<(u64, u64)>,
+    // Whether the hard state in Ready changes term or vote
+    hs_changed: bool,
 }
 
 /// LightReady encapsulates the commit index, committed entries and
@@ -515,6 +517,7 @@ impl<T: Storage> RawNode<T> {
         if hs != self.prev_hs {
             if hs.vote != self.prev_hs.vote || hs.term != self.prev_hs.term {
                 rd.must_sync = true;
+                rd_record.hs_changed = true;
             }
             rd.hs = Some(hs);
         }
@@ -552,7 +555,12 @@ impl<T: Storage> RawNode<T> {
 
         // Leader can send messages immediately to make replication concurrently.
         // For more details, check raft thesis 10.2.1.
-        rd.is_persisted_msg = raft.state != StateRole::Leader;
+        // But not before the term and vote it leads with are persisted: a single
+        // voter becomes leader inside the step that changes them, so until every
+        // Ready carrying such a change is persisted its messages must wait too.
+        rd.is_persisted_msg = raft.state != StateRole::Leader
+            || rd_record.hs_changed
+            || self.records.iter().any(|r| r.hs_changed);
         rd.light = self.gen_light_ready();
         self.records.push_back(rd_record);
         rd
